@@ -32,6 +32,34 @@ def field_read_blocks(f, field):
     return out
 
 
+def update_order_rules(rep, rule, prog):
+    """An index update inserts the new value before it removes the old one (shared by C04 R04.2 and C02 R02.8): a refused insert
+    then leaves the old posting in place - update_impl rolls back only the indexes whose update succeeded."""
+    f = prog.fn("anda_db::index::btree::BTree::update")
+    rep.saw(f, len(f.events))
+    ins = [e for e in f.calls_named(r"^anda_db::index::btree::BTree::insert$")]
+    rem = [e for e in f.calls_named(r"^anda_db::index::btree::BTree::remove$")]
+    # the scalar path: the pair that is executed together (insert whose Ok edge reaches a remove)
+    pair_ok = False
+    for i in ins:
+        oks, errs = f.result_edges(i)
+        for r in rem:
+            if oks and any(f.dominates(t, r.block) for t in oks) and not any(r.block in f.reachable_from([t]) for t in errs):
+                pair_ok = True
+    rep.ob(rule, "insert-before-remove|BTree::update", pair_ok and not any(f.can_reach([r.block], [i.block]) for r in rem for i in ins),
+           "the old value is removed only on the Ok edge of inserting the new value, never before it", f.file + ":%d" % f.line)
+    g = prog.fn(BI + "::batch_update")
+    rep.saw(g, len(g.events))
+    ia = g.calls_named(r"BTreeIndex::<PK, FV>::insert_array$")
+    ra = g.calls_named(r"BTreeIndex::<PK, FV>::remove_array$")
+    ok = bool(ia) and bool(ra) and not g.can_reach([r.block for r in ra], [i.block for i in ia])
+    for i in ia:
+        oks, errs = g.result_edges(i)
+        ok = ok and bool(errs) and not any(g.reachable_from([t]) & {r.block for r in ra} for t in errs)
+    rep.ob(rule, "insert-before-remove|BTreeIndex::batch_update", ok, "remove_array runs after insert_array and never on its Err edge", g.file + ":%d" % g.line)
+
+
+
 def run(rep, tier):
     prog = anda.load()
     C = anda.Coll(prog)
@@ -73,28 +101,7 @@ def run(rep, tier):
 
     # ------------------------------------------------------------------ R04.2 insert-new before remove-old
     rep.rule("R04.2", "index update inserts the new value before removing the old one (wrapper update and BTreeIndex::batch_update)", floor=2)
-    f = prog.fn("anda_db::index::btree::BTree::update")
-    rep.saw(f, len(f.events))
-    ins = [e for e in f.calls_named(r"^anda_db::index::btree::BTree::insert$")]
-    rem = [e for e in f.calls_named(r"^anda_db::index::btree::BTree::remove$")]
-    # the scalar path: the pair that is executed together (insert whose Ok edge reaches a remove)
-    pair_ok = False
-    for i in ins:
-        oks, errs = f.result_edges(i)
-        for r in rem:
-            if oks and any(f.dominates(t, r.block) for t in oks) and not any(r.block in f.reachable_from([t]) for t in errs):
-                pair_ok = True
-    rep.ob("R04.2", "insert-before-remove|BTree::update", pair_ok and not any(f.can_reach([r.block], [i.block]) for r in rem for i in ins),
-           "the old value is removed only on the Ok edge of inserting the new value, never before it", f.file + ":%d" % f.line)
-    g = prog.fn(BI + "::batch_update")
-    rep.saw(g, len(g.events))
-    ia = g.calls_named(r"BTreeIndex::<PK, FV>::insert_array$")
-    ra = g.calls_named(r"BTreeIndex::<PK, FV>::remove_array$")
-    ok = bool(ia) and bool(ra) and not g.can_reach([r.block for r in ra], [i.block for i in ia])
-    for i in ia:
-        oks, errs = g.result_edges(i)
-        ok = ok and bool(errs) and not any(g.reachable_from([t]) & {r.block for r in ra} for t in errs)
-    rep.ob("R04.2", "insert-before-remove|BTreeIndex::batch_update", ok, "remove_array runs after insert_array and never on its Err edge", g.file + ":%d" % g.line)
+    update_order_rules(rep, "R04.2", prog)
 
     # ------------------------------------------------------------------ R04.3 validate before mutate
     rep.rule("R04.3", "validation precedes allocation, index mutation and storage writes (add); set_field and validate precede the intent (update)", floor=4)
@@ -170,6 +177,14 @@ def run(rep, tier):
     early = [r for r in rm if not any(f.dominates(r.block, i.block) for i in ins)]
     rep.ob("R04.5", "images-first|reconcile_mutation_intents", bool(early) and not f.can_reach([i.block for i in ins], [r.block for r in early]),
            "recorded pre/post images are removed in a pass that completes before any re-insert", f.file + ":%d" % f.line)
+    # a rejected add / update leaves no index entry behind: forward/rollback pairing and rollback-or-poison on every error exit
+    # (the same obligations as C02 R02.2 / R02.3, claimed here for the "rejected write leaves no trace" clause)
+    rep.rule("R04.6", "rejected writes leave no index trace: the rollback closure undoes every forward index operation and every error exit after the first "
+                      "index mutation passes it (or poisons the handle)", floor=8)
+    from . import c02
+    fams = c02.families(prog)
+    c02.rollback_rules(rep, prog, anda.Coll(prog), fams, "R04.6", "R04.6", names=("add_impl", "update_impl"))
+
     # recovery order (same fact as C01 R01.7, claimed here for the unique-index consequence): the intent replay retires the
     # postings of images that no longer exist *before* the repair scan re-indexes the documents written after the checkpoint;
     # the other order makes the scan hit AlreadyExists on a value that changed hands, and the new holder ends up unindexed.
